@@ -1179,3 +1179,98 @@ func (w *World) forEachApplication(cc *ssa.CallCommon) string {
 	}
 	return iface + "." + method
 }
+
+// blockReaches: b can reach t through one or more control-flow edges.
+func blockReaches(b, t *ssa.BasicBlock) bool {
+	seen := map[*ssa.BasicBlock]bool{}
+	stack := append([]*ssa.BasicBlock{}, b.Succs...)
+	for len(stack) > 0 {
+		x := stack[len(stack)-1]
+		stack = stack[:len(stack)-1]
+		if x == t {
+			return true
+		}
+		if seen[x] {
+			continue
+		}
+		seen[x] = true
+		stack = append(stack, x.Succs...)
+	}
+	return false
+}
+
+// lastPos: a position inside the block (of its last instruction that has one).
+func lastPos(b *ssa.BasicBlock) token.Pos {
+	for i := len(b.Instrs) - 1; i >= 0; i-- {
+		if p := b.Instrs[i].Pos(); p.IsValid() {
+			return p
+		}
+	}
+	return token.NoPos
+}
+
+// rangeCall: the call iterates over every entry of a map wrapper with a callback: a direct `m.Range(cb)`, or a call of
+// a module helper that does exactly that for the map and the function it is handed (`forEach(m, fn)`: one Range over
+// its map parameter whose callback calls the handed function in its entry block and returns true on every path).
+// Returns the ranged map and the user's callback.
+func (w *World) rangeCall(cc *ssa.CallCommon) (recv ssa.Value, cb *ssa.Function, ok bool) {
+	if cc == nil {
+		return nil, nil, false
+	}
+	if m, r := csmapMethod(cc); m == "Range" && len(cc.Args) == 2 {
+		return r, closureOf(cc.Args[1]), true
+	}
+	g := cc.StaticCallee()
+	if g == nil || g.Blocks == nil || !w.inModule(g) || cc.IsInvoke() || len(g.Params) != len(cc.Args) {
+		return nil, nil, false
+	}
+	mi, fi := -1, -1
+	for i, p := range g.Params {
+		if recvTypeName(p.Type()) == "ConcurrentSwissMap" {
+			mi = i
+		}
+		if _, isSig := p.Type().Underlying().(*types.Signature); isSig {
+			fi = i
+		}
+	}
+	if mi < 0 || fi < 0 {
+		return nil, nil, false
+	}
+	nCalls, good := 0, false
+	allInstrs(g, func(in ssa.Instruction) {
+		c2 := callOf(in)
+		if c2 == nil {
+			return
+		}
+		nCalls++
+		if m, r := csmapMethod(c2); m != "Range" || len(c2.Args) != 2 || unwrap(r) != ssa.Value(g.Params[mi]) || len(guardsOf(in.Block())) != 0 {
+			return
+		}
+		cl := closureOf(c2.Args[1])
+		if cl == nil || len(cl.Blocks) == 0 {
+			return
+		}
+		applies, completes := false, true
+		for _, x := range cl.Blocks[0].Instrs {
+			c3 := callOf(x)
+			if c3 == nil || c3.IsInvoke() || c3.StaticCallee() != nil {
+				continue
+			}
+			if strings.Contains(w.Origin(c3.Value), "param("+g.Params[fi].Name()+")") {
+				applies = true
+			}
+		}
+		allInstrs(cl, func(x ssa.Instruction) {
+			if r, isR := x.(*ssa.Return); isR && x.Parent() == cl {
+				if len(r.Results) != 1 || w.Origin(r.Results[0]) != "const(true)" {
+					completes = false
+				}
+			}
+		})
+		good = applies && completes
+	})
+	if nCalls != 1 || !good {
+		return nil, nil, false
+	}
+	return cc.Args[mi], closureOf(cc.Args[fi]), true
+}
